@@ -14,7 +14,7 @@ import (
 
 func init() {
 	register(&PropSpec{ID: "C15", Level: "other", Run: runC15,
-		Explanation: "Decides, for all values of the caller-supplied amount and bounds, on every path of Iterator: (R-C15.1) every slice/index whose bound derives from IteratorOptions.Amount is proved in range from dominating checks (linear facts, Fourier–Motzkin); (R-C15.2) every success return (nil error) is preceded on all paths by close(output); (R-C15.3) every failed lookup of a bound hash leads only to non-nil error returns; (R-C15.4) no send on the output channel while the log lock is held. Not covered: that the emitted set is the causal past between the bounds, ordering, 'nearest the lower bound'.",
+		Explanation: "Decides, for all values of the caller-supplied amount and bounds, on every path of Iterator: (R-C15.1) every slice/index whose bound derives from IteratorOptions.Amount is proved in range from dominating checks (linear facts, Fourier–Motzkin); (R-C15.2) every success return (nil error) is preceded on all paths by close(output); (R-C15.3) every failed lookup of a bound hash leads only to non-nil error returns; (R-C15.4) no send on the output channel while the log lock is held. (R-C15.10) the loops that gather the start set never overwrite what earlier bounds contributed; (R-C15.11) the positional cut that removes an exclusive lower bound takes exactly one element off the end (E3: len(after) = len(before) − 1) and the length tests of Iterator separate the empty list from the others; (R-C15.12) success is returned without touching the log only with an amount known to be zero; (R-C15.13) the limit variables start from negative constants. Not covered: that the emitted set is the causal past between the bounds for every DAG, ordering beyond the traversal's sort discipline, 'nearest the lower bound'.",
 		Assumptions: []string{"machine-integer overflow of the small bound expressions is ignored"},
 	})
 }
